@@ -137,7 +137,21 @@ func concatMaps(ms reflect.Value) (reflect.Value, error) {
 		vals := rms.MapIndex(key)
 
 		anyVals := vals.Interface().([]any)
-		v, err := toSliceValue(anyVals)
+
+		// an untyped nil carries neither a type nor anything to concat: skip it.
+		// a key that held nothing but nil keeps its nil value.
+		nonNilVals := make([]any, 0, len(anyVals))
+		for _, av := range anyVals {
+			if av != nil {
+				nonNilVals = append(nonNilVals, av)
+			}
+		}
+		if len(nonNilVals) == 0 {
+			ret.SetMapIndex(key, reflect.Zero(typ.Elem()))
+			continue
+		}
+
+		v, err := toSliceValue(nonNilVals)
 		if err != nil {
 			return reflect.Value{}, err
 		}
